@@ -42,7 +42,22 @@ func newEvalNode(et *ExecutingTask, n *pipeline.EvalNode, d NodeDiagnostic) (*Ev
 		}
 		en.expressions[i] = statefulExpr
 		refVars := ast.FindReferenceVariables(lambda.Expression)
-		en.refVarList[i] = refVars
+		// The results of earlier expressions are available to later expressions.
+		// Do not fill them from the point again, a result may have the name of an existing field or tag.
+		vars := make([]string, 0, len(refVars))
+		for _, refVar := range refVars {
+			isResult := false
+			for _, as := range n.AsList[:i] {
+				if as == refVar {
+					isResult = true
+					break
+				}
+			}
+			if !isResult {
+				vars = append(vars, refVar)
+			}
+		}
+		en.refVarList[i] = vars
 	}
 	// Create a single pool for the combination of all expressions
 	en.scopePool = stateful.NewScopePool(ast.FindReferenceVariables(expressions...))
